@@ -155,25 +155,22 @@ Theorem C02_parse_expression_error_located :
   forall fok ts k t rem, parse_expression fok ts = PErr k t rem -> located ts t rem.
 Proof. exact parse_expression_error_located. Qed.
 
-(* program_roundtrip (M2), PARTIAL: uniqueness of parse for statements and declarations.  For every
-   canonical program [cprog ds] - a list of canonical declarations of EVERY kind (acl with negation,
-   long-string address and mask; backend with nested .probe; director with properties and backend
-   objects; table with optional type and optional last comma; sub with parameters and return type;
-   penaltybox; ratecounter; import; include) whose blocks hold canonical statements of every
-   covered kind at any nesting depth (set add unset remove declare call-with-arguments error return
-   log synthetic synthetic.base64 goto label include esi restart block function-call
-   if / else if / elseif / elsif / else chains) with canonical expressions - ParseVCL on the tokens
-   of the program returns exactly the program.  NOT covered: switch statements (and the break /
-   fallthrough statements that only occur in them): [covered_kind].  Follow conditions are part of
-   [cstmt s nx] (a label is not followed by `(`, an include without `;` not by `;`, an if without
-   else not by else / elseif / elsif).  Witness: ex_prog in Proofs/ParseProgram5.v. *)
-Theorem C02_program_roundtrip_partial :
+(* program_roundtrip (M2): uniqueness of parse for statements and declarations.  For every canonical
+   program [cprog ds] - a list of canonical declarations of EVERY kind (acl with negation, long-string
+   address and mask; backend with nested .probe; director with properties and backend objects; table
+   with optional type and optional last comma; sub with parameters and return type; penaltybox;
+   ratecounter; import; include) whose blocks hold canonical statements of EVERY kind at any nesting
+   depth (set add unset remove declare call-with-arguments error return log synthetic
+   synthetic.base64 goto label include esi restart block function-call, if / else if / elseif / elsif /
+   else chains, switch with case "s" / case ~ "re" / default clauses ending in break; or fallthrough;)
+   with canonical expressions - ParseVCL on the tokens of the program returns exactly the program.
+   Statement-level follow conditions are part of [cstmt s nx] (a label is not followed by `(`, an
+   include without `;` not by `;`, an if without else not by else / elseif / elsif); the switch
+   bookkeeping (default index, no duplicate case, one default, last clause not fallthrough) is [book] /
+   [last_case_breaks].  Witness: ex_prog in Proofs/ParseProgram5.v (canonical, and parses back). *)
+Theorem C02_program_roundtrip :
   forall fok ds, cprog fok ds -> parse_vcl fok (flat_map ystmt ds) = POK (Vcl ds false).
 Proof. exact program_roundtrip. Qed.
-
-Theorem C02_program_roundtrip_covered_kinds :
-  forall fok s nx, cstmt fok s nx -> covered_kind s = true.
-Proof. exact cstmt_covered. Qed.
 
 Print Assumptions C02_tables_are_documented.
 Print Assumptions C02_parse_expr_yield.
@@ -200,5 +197,4 @@ Print Assumptions C02_parse_error_located.
 Print Assumptions C02_parse_vcl_error_located.
 Print Assumptions C02_parse_snippet_error_located.
 Print Assumptions C02_parse_expression_error_located.
-Print Assumptions C02_program_roundtrip_partial.
-Print Assumptions C02_program_roundtrip_covered_kinds.
+Print Assumptions C02_program_roundtrip.
